@@ -3,6 +3,7 @@ package checks
 import (
 	"fmt"
 	"regexp"
+	"runtime/debug"
 	"strconv"
 	"strings"
 	"unicode"
@@ -23,6 +24,13 @@ type c03State struct {
 	toks  [][]mut.Tok
 }
 
+func c03NumCases(tier string) int {
+	if tier == "thorough" {
+		return 12000 + len(c03Long)
+	}
+	return 640 + len(c03Long)
+}
+
 func init() {
 	core.Register(&core.Check{
 		ID:    "C03",
@@ -34,12 +42,7 @@ func init() {
 			"'points at the right character' is judged only for seeded single mistakes with a known culprit position",
 			"termination is judged by a per-case watchdog (120 s for a batch that normally takes < 1 s), retried alone with 600 s",
 		},
-		NumCases: func(tier string) int {
-			if tier == "thorough" {
-				return 12000
-			}
-			return 640
-		},
+		NumCases: c03NumCases,
 		Setup: func(c *core.Ctx) error {
 			st := &c03State{}
 			st.files = corpus.Load(c.Repo)
@@ -267,7 +270,48 @@ func kindsString(kinds []int) string {
 	return b.String()
 }
 
+// c03Long: inputs made of one piece repeated many times (long runs and deep nesting); each is a case of
+// its own because a stack overflow kills the worker (which is how it is observed).
+var c03Long = []struct {
+	name, pre, piece, post string
+	n                      int
+}{
+	{"parens", "x := ", "(", "1", 120000}, {"parens-closed", "x := ", "(", "", 120000}, {"brackets", "x := ", "[", "", 120000}, {"index-chain", "x := a", "[0]", "\n", 120000},
+	{"map-nest", "x := ", "{a:", "", 120000}, {"unary-minus", "x := ", "-", "1\n", 120000}, {"unary-not", "x := ", "!", "true\n", 120000}, {"binary-chain", "x := 1", "+1", "\n", 120000},
+	{"carriage-returns", "x := 1", "\r", "\nprint x +\n", 600000}, {"carriage-returns-after-blank", "x := 1 ", "\r", "\n", 600000}, {"blanks", "x := 1", " ", "\n", 600000}, {"newlines", "x := 1", "\n", "", 300000},
+	{"if-nest", "", "if true\n", "print 1\n", 120000}, {"while-nest", "", "while true\n", "", 120000}, {"for-nest", "", "for range 1\n", "", 120000}, {"else-if-chain", "if true\nprint 1\n", "else if true\nprint 2\n", "end\n", 40000},
+	{"illegal-then-func", "", "\x01", "\nfunc \x02", 63}, {"illegal-then-func-64", "", "\x01", "\nfunc \x02 a:num\n", 64}, {"illegal-many-then-func", "", "#", " func f a\nend\n", 300}, {"illegal-lines-then-on", "", "$\n", "on key k:string $\nend\n", 200},
+	{"string-escapes", "print \"", "\\\\", "\"\n", 300000}, {"long-ident", "", "a", " := 1\n", 600000}, {"long-number", "x := ", "9", "\n", 600000}, {"dot-chain", "x := m", ".k", "\n", 120000}, {"comment-lines", "", "// c\n", "", 200000},
+	{"call-nest", "print ", "(len ", "\"a\"", 120000}, {"dots", "x := ", ".", "\n", 200000}, {"colons", "x", ":", "\n", 200000}, {"type-nest", "x:", "[]", "num\n", 120000}, {"assert-chain", "x := a", ".(any)", "\n", 120000},
+}
+
+func c03RunLong(c *core.Ctx, k int) {
+	l := c03Long[k]
+	n := l.n
+	switch {
+	case c.Tier == "thorough" && n > 1000:
+		n = n * 3
+	case n >= 200000:
+		n = n / 4 // long runs: the quick tier only needs them longer than any buffer
+	case n > 1000:
+		n = n * 2 / 3
+	}
+	src := l.pre + strings.Repeat(l.piece, n) + l.post
+	// a small stack for these cases: unbounded recursion shows at a depth of ~50 000 instead of
+	// ~2 000 000 (where it kills the real binary); bounded recursion needs a fraction of this
+	defer debug.SetMaxStack(debug.SetMaxStack(32 << 20))
+	c.Cover("long-input", l.name)
+	c.Event("long_inputs", 1)
+	c.Distinct("long|" + l.name)
+	// the journal holds the whole input; a crash of the worker is attributed to this case
+	checkParseResult(c, src, "long-"+l.name)
+}
+
 func c03Run(c *core.Ctx, i int) {
+	if k := i - (c03NumCases(c.Tier) - len(c03Long)); k >= 0 {
+		c03RunLong(c, k)
+		return
+	}
 	st := c.State.(*c03State)
 	r := c.Rng
 	fi := i % len(st.files)
